@@ -41,7 +41,7 @@ PROBES = ['rows_unsorted', 'multi_call_partition', 'custom_var',
           'eviction_inside_over_time', 'single_step', 'nonscalar_custom',
           'estimates_only_call', 'repeated_request', 'tensor_input_columns',
           'frozen_checked_instances', 'mixed_type_temporal_column',
-          'several_customs_in_one_dict']
+          'several_customs_in_one_dict', 'unknown_names_skipped']
 COMPONENTS = dict(cc.COMPONENTS)
 COMPONENTS['aurel.time.over_time / process_single_timestep / validate_*'] = \
     'real'
@@ -146,7 +146,8 @@ def generate(rng, tier):
             'myscale': g.pick([2.5, -1.0, 0.5]),
             # the earliest time value is given as a Python int (mixed-type
             # temporal column), several custom variables share one dict
-            't_int_first': g.chance(0.3), 'merge_custom': g.chance(0.4)}
+            't_int_first': g.chance(0.3), 'merge_custom': g.chance(0.4),
+            'bogus_names': g.chance(0.15)}
 
 
 def fixup(run):
@@ -167,7 +168,7 @@ def simplify(run):
         c = copy.deepcopy(run); c['order'] = sorted(c['order']); yield c
     if len(run['tkeys']) > 1:
         c = copy.deepcopy(run); c['tkeys'] = c['tkeys'][:1]; yield c
-    for flag in ('t_int_first', 'merge_custom'):
+    for flag in ('t_int_first', 'merge_custom', 'bogus_names'):
         if run.get(flag):
             c = copy.deepcopy(run); c[flag] = False; yield c
     for i in range(len(run['ests'])):
@@ -300,6 +301,11 @@ def execute(run):
                 else:
                     elist.append({e['custom']: CUSTOM_EST[e['custom']]})
                     probe('custom_estimate')
+            if run.get('bogus_names') and ci == 0:
+                # unknown names are documented to be reported and skipped
+                vlist = ['not_a_variable'] + vlist
+                elist = elist + ['not_an_estimate']
+                probe('unknown_names_skipped')
             if not vlist and elist:
                 probe('estimates_only_call')
             if any(_vname(run['vars'][vi]) in data for vi in call['vars']):
